@@ -224,6 +224,14 @@ def adaptsto_harness(ex):
                 return 0 if falsy else 1
 
         mgr.register_factory(lambda a: Ad(adaptee=a, gen=state["gen"]) if state["gen"] >= 0 else None, Source, Target)
+
+        class Standin(Source):
+            """a stand-in object (lazy proxy / mock with a spec): its __class__ attribute reports the class it stands in for.
+            What an object provides is a matter of its TYPE; the offer registered for that type is what adapts it"""
+            @property
+            def __class__(self):
+                return Target
+        state["Standin"] = Standin
         # where the adapting trait sits: on its own (C fast path), inside a compound (C validate_trait_complex), inside a
         # Union / a container (Python validate), or declared by class NAME (resolved on first use: Python validate first)
         from traits.api import Either, Union, List as _List, Int as _Int
@@ -244,7 +252,7 @@ def adaptsto_harness(ex):
         trace = []
         it = cenv.new_interp() if ex.sym else None
         for step in range(k):
-            op = ex.choice("op%d" % step, 4)
+            op = ex.choice("op%d" % step, 5)
             if op == 0:
                 state["gen"] += 1            # the factory now yields a different adapter for the same object
                 trace.append("gen")
@@ -253,7 +261,9 @@ def adaptsto_harness(ex):
                 state["gen"] = -1 if state["gen"] >= 0 else 1     # the factory starts / stops refusing
                 trace.append("toggle")
                 continue
-            val = x if op == 2 else Source()
+            val = x if op == 2 else Source() if op == 3 else Standin()
+            ex.check(mgr.supports_protocol(val, Target) == (state["gen"] >= 0),
+                     "supports_protocol(obj, P) says exactly whether adapt(obj, P) yields something (a falsy adapter is an adapter)")
             if ex.sym:
                 os_ = cenv.hastraits_struct(it, o)
                 with cenv.python_side_env():
@@ -267,7 +277,10 @@ def adaptsto_harness(ex):
                 except TraitError:
                     ok = False
             trace.append("set:%s" % ok)
-            if state["gen"] < 0:
+            if state["gen"] < 0 and op == 4:
+                # adaptation failed: the documented fallback is the isinstance check, which the stand-in passes
+                ex.check(ok and o.__dict__.get("t") is val, "a value that cannot be adapted but passes isinstance is stored unchanged")
+            elif state["gen"] < 0:
                 ex.check(not ok, "a value that cannot be adapted is rejected")
             else:
                 ex.check(ok, "an adaptable value is accepted")
@@ -303,7 +316,7 @@ def _adaptsto_native(ex, mgr, state, Source, Target, Ad, shape):
     x = Source()
     trace = []
     for step in range(3):
-        op = ex.choice("op%d" % step, 4)
+        op = ex.choice("op%d" % step, 5)
         if op == 0:
             state["gen"] += 1
             trace.append("gen")
@@ -312,14 +325,18 @@ def _adaptsto_native(ex, mgr, state, Source, Target, Ad, shape):
             state["gen"] = -1 if state["gen"] >= 0 else 1
             trace.append("toggle")
             continue
-        val = x if op == 2 else Source()
+        val = x if op == 2 else Source() if op == 3 else state["Standin"]()
+        ex.check(mgr.supports_protocol(val, Target) == (state["gen"] >= 0),
+                 "supports_protocol(obj, P) says exactly whether adapt(obj, P) yields something (a falsy adapter is an adapter)")
         try:
             o.t = wrap(val)
             ok = True
         except TraitError:
             ok = False
         trace.append("set:%s" % ok)
-        if state["gen"] < 0:
+        if state["gen"] < 0 and op == 4:
+            ex.check(ok and unwrap(o.t) is val, "a value that cannot be adapted but passes isinstance is stored unchanged")
+        elif state["gen"] < 0:
             ex.check(not ok, "a value that cannot be adapted is rejected")
         else:
             ex.check(ok, "an adaptable value is accepted")
@@ -330,13 +347,93 @@ def _adaptsto_native(ex, mgr, state, Source, Target, Ad, shape):
     return {"trace": trace, "shape": shape}
 
 
+def provides_harness(ex):
+    """@provides(P, ...) makes the class provide exactly the protocols named - also when an interface declares a method called
+    'register' of its own, when the provider is falsy, and for subclasses of the provider"""
+    from traits.api import HasTraits, Interface, Supports, Instance, provides, TraitError
+    from traits.adaptation.api import get_global_adaptation_manager, set_global_adaptation_manager
+    old_mgr = get_global_adaptation_manager()
+    mgr = AdaptationManager()
+    set_global_adaptation_manager(mgr)
+    try:
+        own_register = ex.flag("interface_declares_register")
+        two = ex.flag("two_protocols")
+        falsy = ex.flag("falsy_provider")
+        sub = ex.flag("subclass_of_the_provider")
+        calls = []
+
+        class IOne(Interface):
+            if own_register:
+                def register(self, listener):
+                    """ part of the interface: register a listener with the object """
+
+        class ITwo(Interface):
+            pass
+
+        class IOther(Interface):
+            pass
+
+        decl = (IOne, ITwo) if two else (IOne,)
+
+        class Impl(HasTraits):
+            def register(self, listener):
+                calls.append(listener)
+
+            def __len__(self):
+                return 0 if falsy else 1
+        try:
+            Impl = provides(*decl)(Impl)
+        except Exception as e:
+            ex.note("error", repr(e)[:200])
+            ex.check(False, "@provides accepts interfaces whatever methods they declare")
+            return {}
+
+        cls = type("Sub", (Impl,), {}) if sub else Impl
+        obj = cls()
+
+        class Owner(HasTraits):
+            a = Supports(IOne)
+            b = Supports(ITwo)
+            c = Instance(IOne)
+            d = Supports(IOther)
+        o = Owner()
+        for P, attr in ((IOne, "a"), (ITwo, "b"), (IOther, "d")):
+            declared = P in decl
+            ex.check(mgr.provides_protocol(cls, P) == declared and isinstance(obj, P) == declared,
+                     "a class provides exactly the protocols named in @provides")
+            ex.check(mgr.supports_protocol(obj, P) == declared, "supports_protocol agrees (no offers registered)")
+            got = mgr.adapt(obj, P, None)
+            ex.check((got is obj) if declared else (got is None), "adapt returns a provider unchanged and nothing for an undeclared protocol")
+            try:
+                setattr(o, attr, obj)
+                ok = True
+            except TraitError:
+                ok = False
+            ex.check(ok == declared and (not ok or getattr(o, attr) is obj), "a Supports trait accepts exactly the providers, unchanged")
+        try:
+            o.c = obj
+            ok = True
+        except TraitError:
+            ok = False
+        ex.check(ok and o.c is obj, "an Instance(Interface) trait accepts a provider")
+        ex.check(calls == [], "declaring what a class provides does not call the provider's own methods")
+        return {}
+    finally:
+        set_global_adaptation_manager(old_mgr)
+
+
 def obligations(tier, build):
     from vt import cenv
     cenv.load_program(build)
     obs = [Obligation("adaptsto/histories", adaptsto_harness,
                       bounds={"history length": 3, "operations": ["factory yields a new adapter", "factory starts/stops refusing",
-                                                                  "assign the same object", "assign a fresh object"]},
-                      leverage="choice feasibility only", max_paths=20000)]
+                                                                  "assign the same object", "assign a fresh object",
+                                                                  "assign a stand-in whose __class__ reports the target class"]},
+                      leverage="choice feasibility only", max_paths=20000),
+           Obligation("provides/declarations", provides_harness,
+                      bounds={"protocols": "3 interfaces, 1 or 2 declared", "interface declares a method named register": "symbolic",
+                              "falsy provider": "symbolic", "subclass of the provider": "symbolic"},
+                      leverage="choice feasibility only", max_paths=1000)]
     m_max = 3 if tier == "quick" else 4
     for m in range(0, m_max + 1):
         for s in range(len(PROTOS)):
